@@ -47,6 +47,9 @@ MatS = z3.DeclareSort('Mat')
 VecArr = z3.ArraySort(z3.IntSort(), Vec)
 app = z3.Function('app', Op, Vec, Vec)
 vstruct = z3.Function('vstruct', Vec, Struct)
+IsTupleVec = z3.Function('IsTupleVec', Vec, z3.BoolSort())      # the pytree of the vector is a tuple (of arrays / sub-pytrees)
+VecLen = z3.Function('VecLen', Vec, z3.IntSort())               # its number of items
+VecItem = z3.Function('VecItem', Vec, z3.IntSort(), Vec)        # its items
 rowsum = z3.Function('rowsum', OpArr, VecArr, z3.IntSort(), Vec)
 matof = z3.Function('Mat', Op, MatS)
 inversed = z3.Function('inversed', Op, Op)
@@ -145,12 +148,48 @@ class BlockTheory(A.AlgTheory):
         for name in ('jax.numpy.hstack', 'jax.numpy.vstack', 'jax.scipy.linalg.block_diag', 'jax.numpy.linalg.inv'):
             self.externals[name] = (lambda name: lambda interp, *a, **k: Recorded(name, a, k))(name)
         self.isinstance_handlers.insert(0, self.vec_isinstance)
+        self.sort_lens = dict(self.sort_lens)
+        self.sort_item = dict(self.sort_item)
+        self.sort_iters = dict(self.sort_iters)
+        self.sort_lens['Vec'] = self._vec_len
+        self.sort_item['Vec'] = self._vec_item
+        self.sort_iters['Vec'] = self._vec_iter
 
-    # ---- vectors are neither tuples nor operators
+    # ---- a vector is never an operator; it MAY be a tuple: "blocks whose own inputs or outputs are pytrees" (C10) — the
+    # pytree a block returns can be a tuple of arrays, so `isinstance(value, tuple)` on a vector is a free Boolean
+    # IsTupleVec(v), with len(v) = VecLen(v) >= 0, items VecItem(v, i) that are vectors again (arrays or sub-pytrees, never
+    # operators), unpacking `a, b = v` demanding a tuple of that length (TypeError / ValueError otherwise), and calling a
+    # vector raising TypeError
     def vec_isinstance(self, interp, v, c):
         if is_z3(v) and v.sort() in (Vec, MatS, Struct):
+            if v.sort() == Vec and ((isinstance(c, Ext) and c.path == 'builtins.tuple')
+                                    or (isinstance(c, PyFunc) and c.name == 'tuple')):
+                return IsTupleVec(v)
             return False
         return None
+
+    def _vec_len(self, interp, v):
+        interp.run.assume(VecLen(v) >= 0)
+        if not interp.run.branch(IsTupleVec(v)):
+            raise Unsupported('len() of a vector that is not a tuple pytree (array length: not modelled)')
+        return VecLen(v)
+
+    def _vec_item(self, interp, v, idx):
+        if not B.is_intlike(idx):
+            raise Unsupported('vector indexed by something else than an integer')
+        return VecItem(v, to_z3(idx))
+
+    def _vec_iter(self, interp, v, expect):
+        # tuple unpacking `a, b = v`: works iff v is a tuple of exactly `expect` items
+        if expect is None:
+            raise Unsupported('iteration over a vector of unknown arity')
+        interp.run.assume(VecLen(v) >= 0)
+        if not interp.run.branch(IsTupleVec(v)):
+            # an array: iterating yields its rows — `expect` of them only for a matching leading dimension (not modelled)
+            raise Unsupported('unpacking a vector that is not a tuple pytree')
+        if not interp.run.branch(VecLen(v) == expect):
+            interp.raise_('ValueError', 'unpack length mismatch')
+        return [VecItem(v, z3.IntVal(i)) for i in range(expect)]
 
     # ---- operators of unknown class: application, dense form, inverse
     def op_getattr(self, interp, o, name):
@@ -172,6 +211,8 @@ class BlockTheory(A.AlgTheory):
     def symobj_call(self, interp, f, args, kwargs):
         if is_z3(f) and f.sort() == Op and len(args) == 1 and not kwargs:
             return self.apply(interp, f, args[0])        # AbstractLinearOperator.__call__ (C02/C04)
+        if is_z3(f) and f.sort() == Vec:
+            interp.raise_('TypeError', 'a vector (array / pytree of arrays) is not callable')
         raise Unsupported('call of symbolic object')
 
     def inverse_contract(self, interp, o):
